@@ -102,7 +102,7 @@ func rPanics(c *Ctx, plugins ...string) {
 				continue
 			}
 			n++
-			c.Rep.fail(Finding{Rule: "R-panic", Key: fmt.Sprintf("R-panic|%s|%s|%s", p, c.Repo.funcAt(r.Pos), firstLine(r.Msg)), Where: []string{c.Repo.pos(r.Pos)}, Plugin: p, Script: r.Script,
+			c.Rep.fail(Finding{Rule: "R-panic", Key: fmt.Sprintf("R-panic|%s|%s|%s", p, c.R.repo.funcAt(r.Pos), firstLine(r.Msg)), Where: []string{c.R.repo.pos(r.Pos)}, Plugin: p, Script: r.Script,
 				Msg: fmt.Sprintf("plugin %s: the generator would panic: %s", p, r.Msg), Detail: "abstract path: " + r.describe()})
 		}
 		if n == 0 {
@@ -123,7 +123,7 @@ func rR1(c *Ctx, plugins ...string) {
 				fn := "?"
 				where := []string{}
 				if line > 0 && line-1 < len(rs.Run.LinePos) {
-					fn = c.Repo.funcAt(rs.Run.LinePos[line-1])
+					fn = c.R.repo.funcAt(rs.Run.LinePos[line-1])
 					where = append(where, rs.Run.where(c.Repo, line))
 				}
 				c.Rep.fail(Finding{Rule: "R1", Key: fmt.Sprintf("R1|%s|%s|%s", p, fn, normErr(rs.Err)), Where: where, Plugin: p, Script: rs.Run.Script,
@@ -145,7 +145,7 @@ func rR1(c *Ctx, plugins ...string) {
 					fn := "?"
 					where := []string{}
 					if line > 0 && line-1 < len(rs.Run.LinePos) {
-						fn = c.Repo.funcAt(rs.Run.LinePos[line-1])
+						fn = c.R.repo.funcAt(rs.Run.LinePos[line-1])
 						where = append(where, rs.Run.where(c.Repo, line))
 					}
 					c.Rep.fail(Finding{Rule: "R1", Key: fmt.Sprintf("R1|%s|%s|blank-field", p, fn), Where: where, Plugin: p, Script: rs.Run.Script,
@@ -378,7 +378,7 @@ func rR2mode(c *Ctx, scope, prefix bool, plugins ...string) {
 					}
 					seen[id.Name] = true
 					bad = true
-					gf := c.Repo.funcAt(rs.Run.LinePos[rs.line(id.Pos())-1])
+					gf := c.R.repo.funcAt(rs.Run.LinePos[rs.line(id.Pos())-1])
 					c.Rep.fail(Finding{Rule: "R2", Key: fmt.Sprintf("R2|%s|%s|undeclared %s", p, gf, id.Name), Where: []string{rs.where(c.Repo, id)}, Plugin: p, Script: rs.Run.Script,
 						Msg:    fmt.Sprintf("plugin %s emits the identifier %q, which is neither declared in the emitted function, nor obtained from GetFuncName/TypeString/an import closure, nor predeclared: the generated file does not compile (or silently binds to a user identifier)", p, id.Name),
 						Detail: "abstract path: " + rs.Run.describe() + "\nresidual:\n" + rs.Run.excerpt(60)})
@@ -553,7 +553,7 @@ func rHelperArity(c *Ctx, plugins ...string) {
 				}
 				if len(call.Args) != want {
 					ok = false
-					gf := c.Repo.funcAt(rs.Run.LinePos[rs.line(call.Pos())-1])
+					gf := c.R.repo.funcAt(rs.Run.LinePos[rs.line(call.Pos())-1])
 					c.Rep.fail(Finding{Rule: "R-helper", Key: fmt.Sprintf("R-helper|%s|%s|%s requested with %d types called with %d args", p, gf, who, len(h.Args), len(call.Args)), Where: []string{rs.where(c.Repo, call)}, Plugin: p, Script: rs.Run.Script,
 						Msg:    fmt.Sprintf("plugin %s requests a %s function for %d type(s) and calls it with %d argument(s); that form of %s takes %d: the helper that is generated does not accept the call", p, who, len(h.Args), len(call.Args), who, want),
 						Detail: "residual:\n" + rs.Run.excerpt(40)})
@@ -608,7 +608,7 @@ func rConstIndex(c *Ctx, plugins ...string) {
 						return
 					}
 					ok = false
-					gf := c.Repo.funcAt(rs.Run.LinePos[rs.line(ix.Pos())-1])
+					gf := c.R.repo.funcAt(rs.Run.LinePos[rs.line(ix.Pos())-1])
 					c.Rep.fail(Finding{Rule: "R7", Key: fmt.Sprintf("R7|%s|%s|const-index-unguarded", p, gf), Where: []string{rs.where(c.Repo, ix)}, Plugin: p, Script: rs.Run.Script,
 						Msg:    fmt.Sprintf("plugin %s indexes the slice argument %s[%s] without a dominating test that it is non-empty: an empty (non-nil) argument makes the generated function panic", p, id.Name, bl.Value),
 						Detail: "residual:\n" + rs.Run.excerpt(40)})
@@ -639,8 +639,8 @@ func rFormatData(c *Ctx, plugins ...string) {
 					continue
 				}
 				seen[pos] = true
-				fn := c.Repo.funcAt(pos)
-				c.Rep.fail(Finding{Rule: "R-format", Key: "R-format|" + p + "|" + fn + "|type-text-in-format", Where: []string{c.Repo.pos(pos)}, Plugin: p, Script: r.Script,
+				fn := c.R.repo.funcAt(pos)
+				c.Rep.fail(Finding{Rule: "R-format", Key: "R-format|" + p + "|" + fn + "|type-text-in-format", Where: []string{c.R.repo.pos(pos)}, Plugin: p, Script: r.Script,
 					Msg:    p + ": the text of a type is concatenated into the format argument of Printer.P: a percent sign inside that text (a struct tag such as `format:\"%d\"` of an unnamed struct type) is interpreted as a verb, the emitted type is not the user's type and the package does not compile",
 					Detail: "abstract path: " + r.describe()})
 			}
@@ -668,8 +668,8 @@ func rUnusedTypeString(c *Ctx, plugins ...string) {
 					continue
 				}
 				seen[pos] = true
-				fn := c.Repo.funcAt(pos)
-				c.Rep.fail(Finding{Rule: "R3", Key: "R3|" + p + "|" + fn + "|type-string-unused", Where: []string{c.Repo.pos(pos)}, Plugin: p, Script: r.Script,
+				fn := c.R.repo.funcAt(pos)
+				c.Rep.fail(Finding{Rule: "R3", Key: "R3|" + p + "|" + fn + "|type-string-unused", Where: []string{c.R.repo.pos(pos)}, Plugin: p, Script: r.Script,
 					Msg:    p + ": TypeString is called for a type whose text does not reach the emitted code on this path: the call imports the type's package as a side effect, so for a type from a package that derived.gen.go does not otherwise mention the file has an unused import and does not compile",
 					Detail: "abstract path: " + r.describe() + "\nresidual:\n" + r.excerpt(30)})
 			}
